@@ -101,7 +101,7 @@ class World:
         if scn.mode != "disabled":
             opts["running_concurrency"] = MODE[scn.mode]
             if scn.mode == "keys":
-                opts["key_arguments"] = ("key",)
+                opts["key_arguments"] = ("ka", "kb")
         func = vtasks.scripted_args if scn.mode == "args" else vtasks.scripted
         self.task = self.app.task(**opts)(func)
         vtasks.WORLD = self
@@ -205,8 +205,8 @@ class World:
 
     # ---- actor bodies ----------------------------------------------------------------
     def _call_args(self, name: str) -> tuple:
-        key = self.scn.keys.get(name, "")
-        return (key, 0) if self.scn.mode == "args" else (name, key)
+        ka, kb = vtasks.KEY_ARGS[self.scn.keys.get(name, "")]
+        return (ka, kb) if self.scn.mode == "args" else (name, ka, kb)
 
     def client(self, cname: str, subs: list[tuple]) -> Callable[[], None]:
         def run() -> None:
@@ -455,7 +455,7 @@ def _lookup_ckey(keys: dict[str, str], mode: str) -> str:
     if mode == "task" or not keys:
         return "task"
     try:
-        return "k:" + str(json.loads(keys.get("key", '""')))
+        return "k:" + vtasks.KEY_OF[(int(json.loads(keys["ka"])), int(json.loads(keys["kb"])))]
     except Exception:
         return "k:?"
 
